@@ -118,8 +118,8 @@ def builtin_logger(ctx, n):
 
 def run(ctx):
     import logging
-    logging.getLogger("deep").setLevel(logging.CRITICAL + 1)
-    logging.getLogger().setLevel(logging.CRITICAL + 1)
+    from ..lib.quiet import quiet_logging
+    quiet_logging()
     from deep.api.tracepoint.trigger import LocationAction, Trigger, LineLocation, Location
     ctx.rule = ("templates of 1-8 segments: literal text (ASCII, non-ASCII, newline, single and paired braces, all escaped by "
                 "doubling), fields from 15 evaluating expressions (names, attribute, index, call, arithmetic, module global) "
@@ -232,7 +232,8 @@ def run(ctx):
             fcj.append(j)
     world.clear_pending()
     builtin_logger(ctx, 120 if ctx.thorough else 30)
-    logging.getLogger("deep").setLevel(logging.CRITICAL + 1)
+    from ..lib.quiet import quiet_logging
+    quiet_logging()
     ctx.correspond("render", IMPORTS, "tpl_case", "check_tpl_case", lits, cj, shard=150)
     ctx.correspond("scanner_vs_cpython", IMPORTS, "fields_case", "check_fields_case", flits, fcj, shard=150)
     # forced schedule: thread A parked inside one field of its message while thread B logs (each field "in the paused frame")
